@@ -37,6 +37,18 @@ func main() {
 		os.Exit(cmdShard(os.Args[2:]))
 	case "replay":
 		os.Exit(cmdReplay(os.Args[2:]))
+	case "racerun":
+		seed, _ := strconv.ParseInt(os.Args[2], 10, 64)
+		blocks, _ := strconv.Atoi(os.Args[3])
+		worlds, _ := strconv.Atoi(os.Args[4])
+		counts, err := checks.RaceWorkload(seed, blocks, worlds)
+		for k, v := range counts {
+			fmt.Printf("RACE-WORKLOAD %s %d\n", k, v)
+		}
+		if err != nil {
+			fmt.Printf("RACE-DIVERGED %v\n", err)
+			os.Exit(3)
+		}
 	case "c19replay":
 		if err := checks.C19ReplayMain(os.Args[2], os.Args[3]); err != nil {
 			fmt.Fprintln(os.Stderr, err)
